@@ -52,6 +52,10 @@ class PubSubSpec(Spec):
 
     def run(self, choices, forced=None):
         from harness import pubsub
+        if self.prop == "C01" and forced is None and choices.flag("cfg.clientpub", 1, 10):
+            # one run in ten: the publisher is a real pyrtma.Client using the public sending API
+            from harness import clientpub
+            return clientpub.run(choices, self.prop)
         return pubsub.run(choices, self.prop, None, forced)
 
     def deterministic_cases(self, tier):
